@@ -259,7 +259,7 @@ CLAIM = {
             "unsigned lengths (locally or by a field invariant at every construction site), copy_from_slice operands are equal-length by "
             "construction, constant-range indexing of file-decoded byte vectors is length-guarded, explicit panics are confined to a reviewed "
             "table, explicit index checks imply index < len, thrift list counts are bounded by the remaining input. That no byte string at "
-            "all can crash the reader is not decided. Dictionary indices decoded from a page pass a bounds validation of the index buffer on every path before an engine API uses them as row indices.",
+            "all can crash the reader is not decided. Dictionary indices decoded from a page pass a bounds validation of the index buffer on every path before an engine API uses them as row indices. Where a slice bound was compared with a running length variable, the sliced buffer is not re-sliced between the comparison and the slice (no stale guard).",
     "note": "trusted: rustc MIR (async bodies are re-stitched across await points); the list of unchecked primitives of ReadCursor; known "
             "findings confirmed with single-byte corruptions kept under repro/parquet_corrupt/",
     "technique": "static analysis: MIR guard-dominance + taint rules, interprocedural through unsafe wrappers (rustc_private driver)",
